@@ -35,8 +35,10 @@ CHECKS["C08"] = {
          "what": "MarshalString / MarshalID through the Marshaler interface on every byte string of length n"},
         {"pkg": "graphql", "harness": "Harness_C08_intRoundTrip", "reach": ["c08.ints"], "quick": {"sample_models": 100},
          "what": "Marshal{Int,Int64,Int32,Uint64,Uint32,IntID,UintID} -> JSON decode -> Unmarshal* on a 12-value boundary grid"},
-        {"pkg": "graphql", "harness": "Harness_C08_composition", "reach": ["c08.composition"], "workers": 8, "quick": {"params": {"depth": 2}, "sample_models": 60, "sample_every": 17}, "thorough": {"params": {"depth": 3}, "workers": 14, "sample_models": 100, "sample_every": 997},
-         "what": "FieldSet / Array / lit / contextMarshalerAdapter compositions of depth <= 2 [3], 0..2 children of 7 kinds each: output equals the JSON text of the composition"},
+        {"pkg": "graphql", "harness": "Harness_C08_composition", "reach": ["c08.composition"], "workers": 8, "quick": {"params": {"depth": 2}, "sample_models": 60, "sample_every": 17}, "thorough": {"params": {"depth": 2}, "workers": 14, "sample_models": 100, "sample_every": 97},
+         "what": "FieldSet / Array / lit / contextMarshalerAdapter compositions of depth <= 2, 0..2 children of 7 kinds each: output equals the JSON text of the composition"},
+        {"pkg": "graphql", "harness": "Harness_C08_composition", "reach": ["c08.composition"], "workers": 8, "thorough_only": True, "tag": "deep", "thorough": {"params": {"depth": 6, "fan": 2}, "sample_models": 40, "sample_every": 7},
+         "what": "the same, nesting depth <= 6 with 0..1 children per level"},
         {"pkg": "graphql", "harness": "Harness_C08_misc", "reach": ["c08.misc"], "quick": {"sample_models": 20},
          "what": "Boolean (symbolic), Time, UUID, Map, Any, Omittable: round trips and null forms"},
         {"pkg": "graphql", "harness": "Harness_C08_float", "reach": ["c08.float"], "cross_solvers": ["z3", "cvc5"], "quick": {"sample_models": 20},
